@@ -251,14 +251,26 @@ class Workflow(Composite):
         autorun: bool = False,
         **kwargs,
     ):
-        for node in args:
-            self.add_child(node)
-        super()._after_node_setup(
-            autoload=autoload,
-            delete_existing_savefiles=delete_existing_savefiles,
-            autorun=autorun,
-            **kwargs,
-        )
+        adopted: list[tuple[Node, str]] = []
+        try:
+            for node in args:
+                was_mine, old_label = node.parent is self, node.label
+                self.add_child(node)
+                if not was_mine:
+                    adopted.append((node, old_label))
+            super()._after_node_setup(
+                autoload=autoload,
+                delete_existing_savefiles=delete_existing_savefiles,
+                autorun=autorun,
+                **kwargs,
+            )
+        except BaseException:
+            # Nobody is going to get hold of this workflow: give the nodes back as they
+            # were (without disconnecting them, they were not ours to begin with)
+            for node, old_label in reversed(adopted):
+                super(Composite, self).remove_child(node)
+                node.label = old_label
+            raise
 
     @property
     def inputs_map(self) -> bidict | None:
